@@ -47,8 +47,19 @@ fn rotate(r: &mut Rng, prev: &(Vec<usize>, u64)) -> ((Vec<usize>, u64), &'static
         }
         v
     };
-    match r.below(8) {
+    match r.below(10) {
         0 => (prev.clone(), "same"),
+        8 => {
+            // a key id listed twice: it still is one key
+            let ks = fresh(r, &prev.0, 2);
+            if ks.len() < 2 { return (prev.clone(), "same"); }
+            ((vec![ks[0], ks[1], ks[1]], 2), "dup-id")
+        }
+        9 => {
+            // a role nobody can satisfy: two entries, one key
+            let ks = fresh(r, &prev.0, 1);
+            ((vec![ks[0], ks[0]], 2), "dup-id-unsat")
+        }
         6 | 7 => {
             // the same keys in the same order, only the threshold moves
             let len = prev.0.len() as u64;
@@ -88,7 +99,13 @@ fn epoch_root(e: &Epoch, version: u64, cs: bool, msg: u64) -> ARoot {
 
 /// threshold-many keys of a role (the first `thr`)
 fn quorum(rk: &(Vec<usize>, u64)) -> Vec<usize> {
-    rk.0.iter().take(rk.1 as usize).cloned().collect()
+    let mut distinct: Vec<usize> = Vec::new();
+    for k in &rk.0 {
+        if !distinct.contains(k) {
+            distinct.push(*k);
+        }
+    }
+    distinct.into_iter().take(rk.1 as usize).collect()
 }
 
 pub async fn one(ctx: &mut Ctx<'_>, r: &mut Rng, len: usize, brk: Break, brk_at: usize, sign_epoch: usize, cs: bool, max_updates: u64) {
@@ -96,7 +113,8 @@ pub async fn one(ctx: &mut Ctx<'_>, r: &mut Rng, len: usize, brk: Break, brk_at:
     let mut msgs = MsgGen(0);
     // epochs
     let mut epochs = vec![Epoch { root: (vec![0], 1), ts: 8, snap: 9, tgt: 10 }];
-    match r.below(3) {
+    match r.below(4) {
+        3 => epochs[0].root = (vec![1, 0, 0], 2),
         0 => epochs[0].root = (vec![0, 1], r.range(1, 2)),
         1 => epochs[0].root = (vec![0, 1, 2], r.range(1, 2)),
         _ => {}
